@@ -125,6 +125,19 @@ CLAIMED = {
    note="Trusted: as C04. The executor's side of --no-run (echsx reporting NOT RUN) belongs to C13.",
    technique="Lean 4 proof (state invariant by induction over timer/child-exit interleavings) + differential correspondence check",
    design="§5 C12"),
+ "C06": dict(
+   text="Lean theorems (Echse.Props.C06) about the transcribed checkpoint model (dirty-user list, chkpnt1/chkpnta order, the "
+        "dot-file-then-rename protocol as a cut point per user, single failing open/close/rename, reload through "
+        "_inject_task1): for every state, user and cut point the live file is the previous or the new complete file, "
+        "never a mixture; a restarted daemon arms exactly the tasks of the files under their owners; a clean shutdown "
+        "checkpoints every acknowledged change. echsd.c is run with its checkpoint's file-system calls interposed: the "
+        "process dies at a named call or one call fails, a new daemon starts on the spool, and files and table are compared "
+        "with the model and judged old-or-new directly.",
+   note="Trusted: as C04, plus rename(2) atomicity and 'a died process keeps the effects of completed calls' (no power-loss "
+        "model; the code never fsyncs). Queue files are compared by the UIDs they hold (byte fidelity is C05). Failing write(2) "
+        "is the recorded finding D23 and is not injected. The nedtrie dirty index is not modelled.",
+   technique="Lean 4 proof (case analysis over cut points of the write-then-rename trace, induction over the dirty list) + fault-injecting differential check",
+   design="§5 C06"),
 }
 
 checks = []
